@@ -33,6 +33,17 @@ func TestMain(m *testing.M) {
 		os.Unsetenv(k)
 	}
 	if role := os.Getenv(helperEnv); role != "" {
+		// a helper whose test process has gone away (killed by the driver) must not linger
+		if os.Getenv(helperParentEnv) != "" {
+			go func() {
+				for {
+					time.Sleep(250 * time.Millisecond)
+					if strconv.Itoa(os.Getppid()) != os.Getenv(helperParentEnv) {
+						os.Exit(9)
+					}
+				}
+			}()
+		}
 		os.Exit(helperMain(role))
 	}
 	if err := probeFileSystem(); err != nil {
